@@ -4,9 +4,12 @@ Driver for Model/IsoState.lean at α = ℚ (stateful):   lake env lean --run PgV
   init <pmode> <punit> <lbasis> <lunit> <mbasis> <munit> <tunit> [ps] [ls] <temp>
   P <mode> <unit> | L <basis> <unit> | M <basis> <unit> | T <unit> | A <pm> <pu> <lb> <lu> <mb> <mu>
   valid <pmode> <punit> <lbasis> <lunit> <mbasis> <munit> <tunit>      (constructor label check only)
+  S <pm> <pu> <lb> <lu> <mb> <mu>   (Model/IsoSeq.lean: answers  <issued steps e.g. P,M,L or -> | <ok|err e> | dump ; the driver state is NOT changed)
+  cache <T|F> <T|F>     (the loading / pressure interpolator slot is occupied: a query was answered since the last reset)
 every op answers:  <ok|err e> | labels (7 tokens) | [ps] | [ls] | temp | <lcache><pcache> | <valid T/F>
 -/
 import PgVerif.Model.IsoState
+import PgVerif.Model.IsoSeq
 import PgVerif.Drv.Proto
 import Mathlib.Algebra.Order.Field.Rat
 
@@ -60,7 +63,16 @@ def stepLine (st : St) (ts : List String) : St × String :=
   | ["T", u] => apply st (.temperature (optStr u))
   | ["A", pm, pu, lb, lu, mb, mu] =>
     apply st (.all (optStr pm) (optStr pu) (optStr lb) (optStr lu) (optStr mb) (optStr mu))
+  | ["S", pm, pu, lb, lu, mb, mu] =>
+    -- specification of the combined call: its single calls in the documented order, stopped at the first refusal (state kept)
+    let ops := subSteps (optStr pm) (optStr pu) (optStr lb) (optStr lu) (optStr mb) (optStr mu)
+    let (s', o) := runUntilRefused st.c st.s ops
+    (st, (if ops.isEmpty then "-" else ",".intercalate (ops.map Op.tag)) ++ " | " ++ showOut o ++ " | " ++ dump s')
   | ["cache"] => ({ st with s := { st.s with lcache := true, pcache := true } }, "ok")
+  | ["cache", l, p] =>
+    match parseBool l, parseBool p with
+    | some l, some p => ({ st with s := { st.s with lcache := l, pcache := p } }, "ok")
+    | _, _ => (st, "bad-op")
   | _ => (st, "bad-op")
 
 def main : IO Unit := do
